@@ -13,7 +13,7 @@ def theorem_coverage(chk, res, rows):
     vflib.build_layer("m1", targets=["Corr/Hyp.vo", "Corr/Known2.vo"])
     cov = {}
     inconsistent = []
-    for fn in ("hyp_C01_first", "hyp_C01_step", "hyp_C01_grow", "hyp_C01_change", "hyp_C01_local"):
+    for fn in ("hyp_C01_first", "hyp_C01_step", "hyp_C01_grow", "hyp_C01_change", "hyp_C01_core", "hyp_C01_local"):
         vals = m1run.eval_on_all_cases(res, fn)
         if vals is None:
             cov[fn] = "not evaluated"
